@@ -48,6 +48,13 @@ TEXT["C14"] = {
     "design_ref": "DESIGN.md section 3, C14",
 }
 
+TEXT["C15"] = {
+    "technique": "property-based testing (rapid); metamorphic relation marked-document vs hand-stripped document, reference implementation for spaceless",
+    "text": "Generated documents (with includes) whose literal text carries random whitespace runs around constructs, every delimiter independently marked with '-', under all four TrimBlocks x LStripBlocks settings, are rendered and compared byte for byte with the same document from which exactly the named whitespace was deleted by hand, compiled with everything off. spaceless is compared with an independent fixed-point implementation of 'remove exactly the whitespace runs between two tags' over bodies with stray angle brackets, multi-line tags and context-supplied markup.",
+    "note": "Trusted: the hand-stripping function (c15Strip) and refSpaceless in harness/props/c15_test.go. Verbatim next to markers, comments next to markers/block tags, and option handling across extends are deliberately outside (see evidence assumptions).",
+    "design_ref": "DESIGN.md section 3, C15",
+}
+
 PENDING_REASON = "check not built yet in this build phase (DESIGN.md section 3 describes the planned PBT check); will be claimed once its quick tier is silent on the unchanged tree and kills its mutants"
 
 
